@@ -272,7 +272,11 @@ def archive_wrappers():
         _clear_caches()
         for p in paths():
             if sup_c is not None:
-                got, want = sup_c(p), r.is_supported_file(p)
+                want = r.is_supported_file(p)
+                try:
+                    got = sup_c(p)
+                except Exception as e:  # noqa
+                    got = f"raises {type(e).__name__}"
                 if got != want:
                     return ({"filename": p, "mimetypes": cname}, f"router.is_supported_file({p!r}) = {want}", f"_is_supported_file_cached -> {got}",
                             "archive_extractor.py::_is_supported_file_cached")
@@ -292,8 +296,11 @@ def archive_wrappers():
             for name in member_names() + paths()[::7]:
                 b = os.path.basename(name)
                 want = b.startswith(".") or name.startswith("__MACOSX/") or not r.is_supported_file(b) or b.lower().endswith(nested)
-                got = skip(name, b)
-                if bool(got) != bool(want):
+                try:
+                    got = skip(name, b)
+                except Exception as e:  # noqa
+                    got = f"raises {type(e).__name__}"
+                if isinstance(got, str) or bool(got) != bool(want):
                     return ({"filename": name, "basename": b, "mimetypes": cname},
                             f"skipped = hidden | __MACOSX/ | not is_supported_file({b!r}) | nested archive = {want}", f"_should_skip_file -> {got}",
                             "archive_extractor.py::_should_skip_file")
